@@ -111,21 +111,14 @@ def check_sum(case):
             if pr:
                 raise Violation('wellformed', '; '.join(pr[:3]))
             if kind != 'gen_sum_n_bits':
-                # weighted generate_*: outputs must be exactly the non-zero planes' count at most and the total must
-                # match when outputs are placed at the levels reported by the add_* form run on an identical circuit
-                c2 = core.Circuit.bare_circuit(n)
-                with UuidStream(case['uuid_seed']):
-                    fn = ar.add_sum_n_weighted_bits if kind == 'gen_weighted_eff' else ar.add_sum_n_weighted_bits_naive
-                    r2 = fn(c2, [(weights[i], c2.inputs[i]) for i in range(n)], basis=basis)
-                if [lab for _, lab in r2] != outs or not (c2.gates == {k: v for k, v in c.gates.items()}):
-                    raise Violation('generate_vs_add', f'{kind}: generate_* and add_* on fresh inputs built different circuits')
-                levels = [lv for lv, _ in r2]
-                if len(set(levels)) != len(levels):
-                    raise Violation('levels_not_distinct', f'{kind}: levels {levels}')
-                rhs = arith.planes([(lv, t[o]) for lv, o in zip(levels, outs)])
-                if lhs != rhs:
-                    row, k = arith.first_diff_row(lhs, rhs)
-                    raise Violation('wrong_sum', f'{kind} weights={weights} basis={case["basis"]}: bit {k} wrong on sampled row {row}')
+                # weighted generate_*: the outputs carry pairwise distinct levels, so (no carries between them) the
+                # non-zero output vectors must be exactly the non-zero bit planes of the integer sum
+                import collections as _c
+
+                want = _c.Counter(v for v in lhs.values())
+                have = _c.Counter(t[o] for o in outs if t[o])
+                if want != have:
+                    raise Violation('wrong_sum', f'{kind} weights={weights} basis={case["basis"]}: the outputs are not the bit planes of sum(in*2^weight) at pairwise distinct levels')
             carry = any(k > max(weights) for k in lhs)
             return {'nt': n >= 3 and carry, 'cls': cls, 'key': [kind, case.get('n'), case.get('weights'), case['basis'], be],
                     'sample': {'kind': kind, 'n': n, 'weights': case.get('weights'), 'basis': case['basis'], 'big_endian': be}}
